@@ -1231,6 +1231,7 @@ func main() {
 	// decision procedures translated as a whole (decide.go)
 	guard(&fs, []string{"deliverAct"}, func() { emitDeliver(&fs, root, c, funcs) })
 	guard(&fs, []string{"responseFor"}, func() { emitResponses(&fs, root, c, funcs) })
+	guard(&fs, []string{"filterAct"}, func() { emitFilter(&fs, root, c, funcs) })
 	fs.WriteString("end Jrpc.Gen.Funcs\n")
 	write(*out, "Funcs.lean", fs.String())
 
